@@ -62,8 +62,25 @@ def run(rep):
         rel = rng.choice([1e-3, 3e-3, 1e-2])
         errs = {p: rel * (abs(th.parameters[p]) + 0.1) * rng.uniform(0.5, 2) for p in pars}
         th.parameters_errors = dict(errs)
-        mode = rng.choice(['cov', 'cov', 'diag', 'emptycov'])
+        mode = rng.choice(['cov', 'cov', 'supercov', 'diag', 'emptycov'])
         C = None
+        if mode == 'supercov':
+            # the covariance comes from a fit with MORE free parameters; some were fixed afterwards
+            extra = [c_ for c_ in cand if c_ not in pars][:2]
+            allp = pars + extra
+            if not extra:
+                mode = 'cov'
+            else:
+                eall = dict(errs)
+                for q in extra:
+                    eall[q] = rel * (abs(th.parameters[q]) + 0.1)
+                A = np.array([[rng.gauss(0, 1) for _ in allp] for _ in allp])
+                S = A @ A.T + 0.3 * np.eye(len(allp))
+                d = np.sqrt(np.diag(S))
+                ee = np.array([eall[q] for q in allp])
+                Call = S / np.outer(d, d) * np.outer(ee, ee)
+                th.covariance = {(p1, p2): float(Call[i, j]) for i, p1 in enumerate(allp) for j, p2 in enumerate(allp)}
+                C = Call[:len(pars), :len(pars)]
         if mode == 'cov':
             A = np.array([[rng.gauss(0, 1) for _ in pars] for _ in pars])
             S = A @ A.T + 0.3 * np.eye(len(pars))
@@ -74,6 +91,17 @@ def run(rep):
             th.covariance = {(p1, p2): float(C[i, j]) for i, p1 in enumerate(pars) for j, p2 in enumerate(pars)}
         elif mode == 'emptycov':
             th.covariance = {}
+        # declared limits, sometimes with the parameter sitting within half an error of a limit
+        if rng.random() < 0.5:
+            lims = {}
+            for q in pars:
+                v = th.parameters[q]
+                if rng.random() < 0.5:
+                    lims[q] = (v - 0.1 * errs[q], v + 50 * errs[q]) if rng.random() < 0.5 else (v - 50 * errs[q], v + 0.2 * errs[q])
+                else:
+                    lims[q] = (v - 10 * errs[q], v + 10 * errs[q])
+            th.parameters_limits.update(lims)
+            rep.hist('limits', 'near-limit')
         before = dict(th.parameters)
         ptb = dict(pt)
         try:
